@@ -51,7 +51,24 @@ type spCase struct {
 	entry string // xml | post
 }
 
+var scMethods = []string{"urn:oasis:names:tc:SAML:2.0:cm:holder-of-key", "urn:oasis:names:tc:SAML:2.0:cm:sender-vouches", "absent", "urn:oasis:names:tc:SAML:2.0:cm:BEARER"}
+
 func (c *Ctx) runSP(k spCase) string {
+	// metamorphic dimension outside the model: the confirmation Method must not matter
+	for ei := range k.r.Entries {
+		if k.r.Entries[ei].Subject == nil {
+			continue
+		}
+		scs := *k.r.Entries[ei].Subject
+		for si := range scs {
+			if c.chance(0.3) {
+				scs[si].Method = scMethods[c.rng.Intn(len(scMethods))]
+				c.count("confirmation-method", scs[si].Method)
+			} else {
+				c.count("confirmation-method", "bearer")
+			}
+		}
+	}
 	b := &builder{c: c, lexStyle: k.lex, spCert: c.key("sp").Cert, badCert: c.key("sp2").Cert}
 	xmlBytes := elBytes(b.responseEl(k.r))
 	setGlobals(k.cfg, k.now)
